@@ -51,6 +51,7 @@ class Facts:
         self.impls = d['impls']
         self.nonce = d.get('nonce')
         self.flavours = {}
+        self.flavour_consts = {}
         self.wait_impls = {}
         for im in self.impls:
             tr = im.get('trait')
@@ -60,6 +61,8 @@ class Facts:
             if tr.endswith('multiqueue::QueueRW') and adt:
                 self.flavours[short(adt)] = {it['name']: it['path'] for it in im['items']
                                              if it['kind'] == 'AssocFn'}
+                self.flavour_consts[short(adt)] = {it['name']: it.get('value') for it in im['items']
+                                                   if it['kind'].startswith('AssocConst')}
             if tr.endswith('wait::Wait') and adt:
                 self.wait_impls[short(adt)] = {it['name']: it['path'] for it in im['items']
                                                if it['kind'] == 'AssocFn'}
@@ -97,6 +100,7 @@ class Facts:
 # call classification helpers
 # ----------------------------------------------------------------------------------------
 
+PTR_CAST_RE = re.compile(r'ptr::(mut_ptr|const_ptr)::<impl \*(mut|const) T>::(cast|cast_mut|cast_const)$')
 PTR_METHOD_RE = re.compile(r'ptr::(mut_ptr|const_ptr)::<impl \*(mut|const) T>::(read|read_volatile|read_unaligned|write|write_volatile|write_unaligned|drop_in_place|replace|write_bytes)$')
 PRED_RE = re.compile(r'(?:result::Result|option::Option)(?:::<.*>)?::(is_ok|is_err|is_some|is_none)$')
 FN_TRAIT_RE = re.compile(r'ops::(function::)?(FnOnce|FnMut|Fn)(::|$)')
@@ -415,6 +419,13 @@ class Graph:
             if c == 0:
                 break
         self._relink()
+        # flags passed between functions are recognised on the flow-sensitive expressions, i.e. after linking
+        for _pass in range(3):
+            c = self._thread_flag()
+            if c == 0:
+                break
+            self.threaded += c
+            self._relink()
 
     def _relink(self):
         for n in self.nodes:
@@ -779,6 +790,22 @@ class Graph:
             if not origins:
                 continue
             onodes = {o for o, _ in origins}
+            # definitions of the variables on the way that are neither origins nor mere conveyors of the value
+            kills = set()
+            for key in fwd:
+                for d in self.defs.get(key) or ():
+                    kn = None
+                    if d[0] == 'rv':
+                        rv = d[1]
+                        conv = rv['k'] in ('discr', 'agg', 'ref') or (rv['k'] == 'use' and (rv['op']['k'] != 'const' or rv['op'].get('v') is not None)) \
+                            or (rv['k'] == 'un' and rv['op'] == 'Not') or (rv['k'] == 'bin' and rv['op'] in ('Eq', 'Ne'))
+                        if not conv:
+                            kn = d[3]
+                    elif d[0] == 'callres' and d[1] not in self._fwd_calls:
+                        kn = d[1]
+                    if kn is not None and kn not in onodes:
+                        kills.update(bysite.get(self.site_of(kn)) or [kn])
+            kills.discard(sid)
             edges = {}
             other = None
             for eid in S.succs:
@@ -801,22 +828,11 @@ class Graph:
                 # count as having passed it (guard rules ask for dominance by edge nodes)
                 if len(self.nodes[tgt].succs) == 1:
                     tgt = self.nodes[tgt].succs[0]
-                # region between O and the switch: everything reachable from O without passing S
-                region = self.reachable(O.succs, blocked={sid})
+                # region between O and the switch: everything reachable from O without passing S, another
+                # definition of the tested value (a different constant, or something that is no constant at all)
+                region = self.reachable(O.succs, blocked={sid} | kills | (onodes - {o}))
                 touches = any(sid in self.nodes[r].succs for r in region) or sid in O.succs
                 if not touches or len(region) > 400:
-                    continue
-                if (region & onodes) - {o}:
-                    continue
-                ok = True
-                for r in region:
-                    X = self.nodes[r]
-                    if X.call is not None and X.call['inlined'] is None:
-                        d = X.term['dest']
-                        if (X.inst, d['l']) in fwd and r not in self._fwd_calls:
-                            ok = False
-                            break
-                if not ok:
                     continue
                 clone = {}
                 for r in region:
@@ -879,6 +895,95 @@ class Graph:
                             continue
                         region = self.reachable(start, blocked=blocked)
                         if not any(s2 in self.nodes[r].succs for r in region) or len(region) > 60:
+                            continue
+                        clone = {}
+                        for r in region:
+                            C = self.nodes[r]
+                            N = self._new_node(C.inst, C.fn, C.bb, C.kind)
+                            N.stmts, N.term, N.line, N.call, N.edge = C.stmts, C.term, C.line, C.call, C.edge
+                            clone[r] = N.id
+                        for r in region:
+                            C = self.nodes[r]
+                            self.nodes[clone[r]].succs = [tgt if s_ == s2 else clone.get(s_, s_) for s_ in C.succs]
+                        E1.succs = [tgt if s_ == s2 else clone.get(s_, s_) for s_ in E1.succs]
+                        cnt += 1
+        return cnt
+
+    def _thread_flag(self):
+        """a boolean computed in one function and tested both there and, after being returned, by its callers
+        (`let park = !check(..); if park { register }; park`): the switches evaluate to the same expression over call
+        results.  A path that leaves one test on an edge and reaches a test of the same value in ANOTHER function
+        instance without re-executing a call the value depends on takes the corresponding edge there; it is routed
+        (through clones) behind that edge.  Runs on the flow-sensitive expressions, i.e. after linking."""
+        cnt = 0
+        live0 = self.reachable()
+        cands = [n for n in self.nodes if n.id in live0 and n.kind == 'block' and n.term['k'] == 'switch' and len(n.succs) > 1
+                 and (n.term.get('opty') or {}).get('k') == 'bool']
+        if len({n.inst for n in cands}) < 2:
+            return 0
+        bysite = {}
+        for n in self.nodes:
+            if n.id in live0:
+                bysite.setdefault(self.site_of(n.id), []).append(n.id)
+        groups = {}
+        for n in cands:
+            e = self.strip(self.switch_expr(n.id))
+            neg = False
+            while e[0] == 'un' and e[1] == 'Not':
+                e = self.strip(e[2])
+                neg = not neg
+            if e[0] == 'phi':
+                # constant alternatives are the business of constant threading: what is left is the flag itself
+                rest = [a_ for a_ in (self.strip(x_) for x_ in e[1]) if a_[0] != 'c']
+                if len(rest) == 1:
+                    e = rest[0]
+                    while e[0] == 'un' and e[1] == 'Not':
+                        e = self.strip(e[2])
+                        neg = not neg
+            if e[0] != 'bin':
+                continue
+            try:
+                hash(e)
+            except TypeError:
+                continue
+            groups.setdefault(e, []).append((n.id, neg))
+        for e, sws in groups.items():
+            if len({self.nodes[s_[0]].inst for s_ in sws}) < 2:
+                continue
+            calls = {s_[1] for s_ in self.deep_walk(e) if s_[0] == 'call'}
+            if not calls:
+                continue
+            redo = set()
+            for c_ in calls:
+                redo.update(bysite.get(self.site_of(c_)) or [c_])
+            for (s1, n1) in sws:
+                for (s2, n2) in sws:
+                    if self.nodes[s1].inst == self.nodes[s2].inst or len(self.nodes) > self._thread_budget:
+                        continue
+                    S2 = self.nodes[s2]
+                    for e1 in list(self.nodes[s1].succs):
+                        E1 = self.nodes[e1]
+                        if E1.kind != 'edge' or not E1.succs:
+                            continue
+                        v1 = E1.edge[1]
+                        val = (v1 is None or str(v1) != '0') != n1
+                        out2 = val != n2
+                        tgt = None
+                        for e2 in S2.succs:
+                            if self.nodes[e2].kind != 'edge':
+                                continue
+                            v2 = self.nodes[e2].edge[1]
+                            if (v2 is None or str(v2) != '0') == out2:
+                                tgt = e2
+                        if tgt is None or len(self.nodes[tgt].succs) != 1:
+                            continue
+                        tgt = self.nodes[tgt].succs[0]
+                        blocked = redo | {s2}
+                        start = list(E1.succs)
+                        if any(x_ in blocked for x_ in start):
+                            continue
+                        region = self.reachable(start, blocked=blocked)
+                        if not any(s2 in self.nodes[r].succs for r in region) or len(region) > 120:
                             continue
                         clone = {}
                         for r in region:
@@ -1111,6 +1216,11 @@ class Graph:
         if k == 'const':
             if 'fn' in o:
                 return ('fnc', o['fn'])
+            if o.get('assoc_const') and (o.get('assoc_trait') or '').endswith('multiqueue::QueueRW') and self.flavour:
+                # `RW::CONST` in code that is generic over the flavour: the value the flavour's impl gives it
+                v_ = (self.facts.flavour_consts.get(self.flavour) or {}).get(o['assoc_const'])
+                if v_ is not None:
+                    return ('c', v_, None, o.get('ty'))
             if o.get('ref_v') is not None:
                 return ('ref', ('c', o['ref_v'], o.get('ref_enumv'), 'enum:' + str(o.get('ref_adt'))))
             return ('c', o.get('v'), o.get('enumv'), o.get('ty'))
@@ -1365,10 +1475,19 @@ class Graph:
         return nm
 
     def strip(self, e):
-        """strip casts / copies"""
-        while e[0] == 'cast':
-            e = e[2]
-        return e
+        """strip casts / copies (`p as *mut T` and the method forms `p.cast()`, `p.cast_mut()`, `p.cast_const()`)"""
+        while True:
+            if e[0] == 'cast':
+                e = e[2]
+                continue
+            if e[0] == 'call':
+                n = self.nodes[e[1]]
+                if n.call is not None and n.call['inlined'] is None and PTR_CAST_RE.search(n.call.get('resolved') or n.call['name'] or ''):
+                    a = n.term.get('args') or []
+                    if a:
+                        e = self.ev_op(n.inst, a[0], at=(e[1], None))
+                        continue
+            return e
 
     def locpaths(self, e, _depth=0):
         """abstract access paths ('root/Adt.field/...') a pointer-valued expression may denote"""
